@@ -610,3 +610,47 @@ Proof.
         destruct (trace_dead r y id Hl' Hwf Hx' ltac:(lia)) as (C & _). lia.
     + apply (IH (clear_events s) (S i) s' id x (life_clear _ Hl) Hwf Hrun Hx Hn).
 Qed.
+
+(** * whole histories: an hourly payout is paid at most as many times as it has hours *)
+
+Lemma payout_absent_step s o s' id :
+  kinv s -> step s o = OOk s' -> payouts s !! id = None -> id <= sub_count s -> payouts s' !! id = None /\ id <= sub_count s'.
+Proof.
+  intros Hi H Hn Hle. destruct (proj1 (evo_step _ _ _ Hi H)) as [[A _ C]|[A _ _ _ E]].
+  - split; [|lia]. destruct (payouts s' !! id) as [x'|] eqn:E'; [|reflexivity]. destruct (C _ _ E') as (x & Hx & _). congruence.
+  - split; [|lia]. destruct (payouts s' !! id) as [x'|] eqn:E'; [|reflexivity]. rewrite (E id x') in Hn; [discriminate|lia|exact E'].
+Qed.
+
+Lemma trace_payout_absent ops : forall s id,
+  life_inv s -> wf_hist wf_op_life s ops -> payouts s !! id = None -> id <= sub_count s ->
+  cnt (is_payout_ev id) (trace s ops) = 0.
+Proof.
+  induction ops as [|o r IH]; intros s id Hl Hwf Hn Hle; simpl; [reflexivity|].
+  destruct Hwf as [Hop Hwf]. destruct (step s o) as [s'| |] eqn:Hstep; [| |reflexivity].
+  - rewrite cnt_app. destruct (step_payout_events s o s' id Hl Hstep) as [K|(_ & t & po & _ & Hpo & _)]; [|congruence].
+    cbv zeta in K. rewrite K. destruct (payout_absent_step s o s' id (ai_k _ (lf_idx _ Hl)) Hstep Hn Hle) as [Hn' Hle'].
+    rewrite (IH s' id (life_step _ _ _ Hl Hop Hstep) Hwf Hn' Hle'). reflexivity.
+  - apply (IH (clear_events s) id (life_clear _ Hl) Hwf); assumption.
+Qed.
+
+Theorem trace_payouts_within_hours ops : forall s id po,
+  life_inv s -> wf_hist wf_op_life s ops -> payouts s !! id = Some po ->
+  cnt (is_payout_ev id) (trace s ops) <= Z.max 0 (po_hours po).
+Proof.
+  induction ops as [|o r IH]; intros s id po Hl Hwf Hpo; simpl; [lia|].
+  destruct Hwf as [Hop Hwf]. destruct (step s o) as [s'| |] eqn:Hstep; [| |simpl; lia].
+  - rewrite cnt_app. pose proof (ai_k _ (lf_idx _ Hl)) as Hi. pose proof (life_step _ _ _ Hl Hop Hstep) as Hl'.
+    destruct (k_po _ (ki_sub _ Hi) _ _ Hpo) as (_ & Hid).
+    destruct (step_payout_events s o s' id Hl Hstep) as [K|(K & t & po0 & _ & Hpo0 & _ & Hh & _ & Hpo')]; cbv zeta in K; rewrite K.
+    + destruct (payouts s' !! id) as [po'|] eqn:Hpo'.
+      * pose proof (IH s' id po' Hl' Hwf Hpo') as B.
+        assert (Hle : po_hours po' <= po_hours po).
+        { destruct (proj1 (evo_step _ _ _ Hi Hstep)) as [[_ _ C]|[_ _ _ _ E]].
+          - destruct (C _ _ Hpo') as (x & Hx & S). rewrite Hpo in Hx. injection Hx as <-. destruct S as (_ & _ & _ & _ & S). exact S.
+          - rewrite (E id po') in Hpo; [injection Hpo as <-; lia|lia|exact Hpo']. }
+        lia.
+      * assert (Hle' : id <= sub_count s') by (destruct (proj1 (evo_step _ _ _ Hi Hstep)) as [[A _ _]|[A _ _ _ _]]; lia).
+        rewrite (trace_payout_absent r s' id Hl' Hwf Hpo' Hle'). lia.
+    + rewrite Hpo in Hpo0. injection Hpo0 as <-. pose proof (IH s' id _ Hl' Hwf Hpo') as B. simpl in B. lia.
+  - apply (IH (clear_events s) id po (life_clear _ Hl) Hwf Hpo).
+Qed.
